@@ -191,21 +191,10 @@ def opBag (j : Json) : P Json := do
       match b.validate with
       | .error e => pure (Json.mkObj [("err", compileErrToJson e)])
       | .ok av =>
-        let res := ns.foldl (fun (acc : Option (Bag × List BNode)) n =>
-          match acc with
-          | none => none
-          | some (bb, outs) =>
-            match b.getNode av n with
-            | .node o | .virtualInput (some o) => some (bb, outs ++ [o])
-            | .virtualInput none =>
-              let i : BNode := { id := bb.next, name := n }
-              some ({ bb with inputs := bb.inputs ++ [i], next := bb.next + 1 }, outs ++ [i])
-            | .discarded | .undefined => none) (some (b, []))
-        match res with
-        | none => pure (Json.mkObj [("err", .str "FieldError")])
-        | some (bb, outs) =>
-          let (b', p) := bb.withProduct outs
-          runNode b' p st env stores
+        match b.tupleRequest av ns with
+        | .error .field => pure (Json.mkObj [("err", .str "FieldError")])
+        | .error .value => pure (Json.mkObj [("err", .str "ValueError")])
+        | .ok (b', p) => runNode b' p st env stores
     | _ => throw s!"unknown bag step {t}"
   pure (Json.mkObj [("outs", .arr outs.toArray)])
 
